@@ -306,6 +306,11 @@ func EnsureInterface(in interface{}, err error) (interface{}, error) {
 		return in, err
 	}
 	if v, ok := in.(reflect.Value); ok {
+		// the decoder keeps maps behind a pointer in its ref table: a back-reference
+		// to a map is the map itself, as the first occurrence was
+		if v.Kind() == reflect.Ptr && !v.IsNil() && v.Elem().Kind() == reflect.Map {
+			v = v.Elem()
+		}
 		in = v.Interface()
 	}
 	if v, ok := in.(*_refHolder); ok {
